@@ -112,6 +112,21 @@ def cases():
                 consumers["narrow_literal_index"] = fill + [ExprStmt(Assign("=", x, F(2.0))), Return(B("+", Index(V("t", at4), x, INT), b))]
                 consumers["narrow_init_index"] = fill + [Decl(INT, "slot", F(3.0)), Return(B("+", Index(V("t", at4), V("slot", INT), INT), b))]
                 consumers["narrow_expr"] = fill + [ExprStmt(Assign("=", x, B("*", B("*", b, b), F(0.5)))), Return(B("+", Index(V("t", at4), B("%", B("*", x, x), I(4)), INT), x))]
+                f4 = vec(FLOAT, 4)
+                m3 = ("mat", FLOAT, 3, 3)
+                f3 = vec(FLOAT, 3)
+                vdecl = Decl(f4, "v", Construct(f4, [F(0.5), F(1.5), F(2.5), F(3.5)]))
+                mdecl = Decl(m3, "m", Construct(m3, [Construct(f3, [F(1.0), F(2.0), F(3.0)]), Construct(f3, [F(4.0), F(5.0), F(6.0)]), Construct(f3, [F(7.0), F(8.0), F(9.0)])]))
+                idx = B("%", B("*", b, b), I(3))
+                consumers["vec_index"] = [vdecl, ExprStmt(Assign("=", x, idx)), Return(B("+", Index(V("v", f4), x, FLOAT), x))]
+                consumers["vec_store_index"] = [vdecl, ExprStmt(Assign("=", x, idx)), ExprStmt(Assign("=", Index(V("v", f4), x, FLOAT), F(9.0))),
+                                                Return(B("+", B("+", Index(V("v", f4), I(0), FLOAT), Index(V("v", f4), I(1), FLOAT)), Index(V("v", f4), I(2), FLOAT)))]
+                consumers["mat_index"] = [mdecl, ExprStmt(Assign("=", x, idx)), Return(B("+", Index(Index(V("m", m3), x, f3), x, FLOAT), x))]
+                consumers["mat_row_store"] = [mdecl, ExprStmt(Assign("=", x, idx)), ExprStmt(Assign("=", Index(V("m", m3), x, f3), Construct(f3, [F(0.0), F(0.5), F(0.25)]))),
+                                              Return(B("+", Index(Index(V("m", m3), I(0), f3), I(1), FLOAT), Index(Index(V("m", m3), I(2), f3), I(1), FLOAT)))]
+                consumers["mat_elem_store"] = [mdecl, ExprStmt(Assign("=", x, idx)), ExprStmt(Assign("=", Index(Index(V("m", m3), x, f3), x, FLOAT), F(50.0))),
+                                               Return(B("+", Index(Index(V("m", m3), I(0), f3), I(0), FLOAT), Index(Index(V("m", m3), I(1), f3), I(1), FLOAT)))]
+                consumers["swizzle_of_indexed"] = [mdecl, ExprStmt(Assign("=", x, idx)), Return(B("+", Swizzle(Index(V("m", m3), x, f3), "z"), Swizzle(Index(V("m", m3), x, f3), "x")))]
                 consumers["narrow_const_arith"] = [ExprStmt(Assign("=", x, F(7.0))), Return(B("/", x, I(2)))]
                 consumers["narrow_const_index_vec"] = [Decl(vec(FLOAT, 4), "v", Construct(vec(FLOAT, 4), [F(0.5), F(1.5), F(2.5), F(3.5)])),
                                                        ExprStmt(Assign("=", x, F(3.0))), Return(B("+", B("*", x, I(100)), I(0)))] 
